@@ -9,7 +9,7 @@ from ..model import call_many
 from ..pool import guarded, run_cases
 
 THEOREMS = ["C15_slices", "C15_start_is_line_start", "C15_header_prefix", "C15_footer_suffix", "C15_start_example",
-            "C15_slices_nonvacuous"]
+            "C15_slices_nonvacuous", "C15_rest_header_survives"]
 
 STYLES = ("rest", "google", "numpydoc")
 HEAD_SENT = [
@@ -196,7 +196,7 @@ def worker(batch):
 def run(ctx):
     status = coqbuild.prove("C15", THEOREMS)
     rng = ctx.rng
-    n = 600 if ctx.quick else 8000
+    n = 600 if ctx.quick else 24000
     cases = [gen_doc(rng) for _ in range(n)]
     batches = [cases[i:i + 50] for i in range(0, len(cases), 50)]
     agg = {"n": 0, "split_ok": 0, "conv_ok": 0, "conv_err": 0}
